@@ -400,6 +400,44 @@ example (fuel : Nat) : Sem.run fuel PC' = Sem.run fuel PC :=
 
 example : (Sem.run 100 PC').out = "y\n" := by decide +kernel
 
+/-! ## overlapping inherent impls: the exact impl keeps its calls -/
+
+/-- With the lookup order of mono.rs (`Gen.calleeLookupOrder`, regenerated on every run): a callee whose name
+is defined as Core spells it is that definition — the generic impl of the same base type and method is
+consulted only for names that are not defined.  So `a.describe()` on `a : Cell[int32]`, which the typer
+resolved to `impl Cell[int32]` and Core names `inherent#Cell#Cell[int32]#describe`, is never redirected
+to an instance of `impl[T] Cell[T]`.  (If the order in mono.rs changes, the extractor refuses or this
+theorem no longer checks.) -/
+theorem exact_impl_wins (F : List Fn) (n : String) (f : Fn) (h : findFn F n = some f) : findCallee F n = some f :=
+  findCallee_of_findFn h
+
+def cellOf (t : Ty) : Ty := .app (.struct "Cell") [t]
+/-- `impl[T] Cell[T] { fn describe(self) -> string { "cell" } }` -/
+def describeGeneric : Fn :=
+  { name := "inherent#Cell#Cell[T]#describe", generics := ["T"], params := [("self/0", cellOf (.param "T"))], ret := .string,
+    body := .prim (.str "cell") }
+/-- `impl Cell[int32] { fn describe(self) -> string { "int cell" } }` -/
+def describeInt : Fn :=
+  { name := "inherent#Cell#Cell[int32]#describe", generics := [], params := [("self/1", cellOf i32)], ret := .string,
+    body := .prim (.str "int cell") }
+def overlapMain : Fn :=
+  { name := "main", generics := [], params := [], ret := .unit,
+    body :=
+      .letE "a/2" (.call .string (.var "inherent#Cell#Cell[int32]#describe" (.func [cellOf i32] .string))
+          [.constr (.struct "Cell") (cellOf i32) [lit 7]]) <|
+      .letE "b/3" (.call .string (.var "inherent#Cell#Cell[string]#describe" (.func [cellOf .string] .string))
+          [.constr (.struct "Cell") (cellOf .string) [.prim (.str "s")]]) <|
+      .prim .unit }
+def overlapProg : List Fn := [describeGeneric, describeInt, overlapMain]
+
+/-- the exact impl is emitted under its own name and called as such; only `Cell[string]` gets a generic instance -/
+example : outNames (phase1 20 overlapProg) =
+    some ["inherent#Cell#Cell[int32]#describe", "main", "inherent#Cell#Cell[T]#describe__T_string"] := by decide +kernel
+example : (findCallee overlapProg "inherent#Cell#Cell[int32]#describe").map (·.name) = some "inherent#Cell#Cell[int32]#describe" := by
+  decide +kernel
+example : (findCallee overlapProg "inherent#Cell#Cell[string]#describe").map (·.name) = some "inherent#Cell#Cell[T]#describe" := by
+  decide +kernel
+
 /-! ## polymorphic recursion: no finite universe exists, and the loop does not end -/
 
 def optOf (t : Ty) : Ty := .app (.enum "Opt") [t]
@@ -422,12 +460,12 @@ example : (phase1 30 growProg).isNone = true := by decide +kernel
 
 theorem grow_requests (t : Ty) (ht : hasTParam t = false) :
     requests growProg growFn [("T", t)] = [("grow", [("T", optOf t)])] := by
-  simp [requests, growFn, growMain, growProg, monoE, monoEs, monoVarP, specializeValueP, findFn, resolveCallP, findCallee,
+  simp [requests, growFn, growMain, growProg, monoE, monoEs, monoVarP, specializeValueP, findFn, resolveCallP, findCallee, Gen.calleeLookupOrder, lookupBy,
     fnIsGeneric, hasTParam, hasTParams, substTy, substTys, lookup, getTys, getTy, unify, unifyList, optOf, i32, reqsOf, ht,
     updateCtorPanics, constrName, tyBeq]
 
 theorem main_requests : requests growProg growMain [] = [("grow", [("T", i32)])] := by
-  simp [requests, growFn, growMain, growProg, monoE, monoEs, monoVarP, specializeValueP, findFn, resolveCallP, findCallee,
+  simp [requests, growFn, growMain, growProg, monoE, monoEs, monoVarP, specializeValueP, findFn, resolveCallP, findCallee, Gen.calleeLookupOrder, lookupBy,
     fnIsGeneric, hasTParam, hasTParams, substTy, substTys, lookup, getTys, getTy, primTy, unify, unifyList, optOf, i32, reqsOf,
     updateCtorPanics, constrName, tyBeq]
 
